@@ -18,23 +18,26 @@ AF = 'ArrayFormula'
 LONG = 'n' * 9000 + ' exec(2)'              # a long note: texts of up to 32767 characters are legal cell contents
 WORKBOOK = [
     ('Data', [[1, 'x', None], [0, False, ''], [None, None, 2.5]]),
-    ('S 2', [[('AF', ' =A1*2 '), 'eval(1)'], ['SUM(A1)', 'pad '], ['os.system("x") + ABS(1)', 'eval(1)'], [LONG, 7]]),
+    ('S 2', [[('AF', ' =A1*2 '), 'eval(1)'], ['SUM(A1)', 'pad '], ['os.system("x") + ABS(1)', 'eval(1)'], [LONG, 7], ['NOTE( see below', 'exec(9)']]),
     ('Empty', []),
     ('Sparse', [[5, 6], [None, None], [0, False]]),
+    # rows of different lengths, as a streaming reader hands them out: what a short row does not have is blank, not empty text
+    ('Ragged', [[1, 2, 3], [4], [], [7, 8]]),
     # a cell far below the rest of its sheet: every row in between exists and is blank
     ('Gap', [['top', 1]] + [[None, None] for _ in range(1200)] + [['eval(3)', True]]),
 ]
 EXPECTED_DATA = [
     [[1, 'x', None], [0, False, ''], [None, None, 2.5]],
-    [['=A1*2', 'eval(1)'], ['SUM(A1)', 'pad '], ['os.system("x") + ABS(1)', 'eval(1)'], [LONG, 7]],
+    [['=A1*2', 'eval(1)'], ['SUM(A1)', 'pad '], ['os.system("x") + ABS(1)', 'eval(1)'], [LONG, 7], ['NOTE( see below', 'exec(9)']],
     [],
     [[5, 6], [None, None], [0, False]],
+    [[1, 2, 3], [4], [], [7, 8]],
     [['top', 1]] + [[None, None] for _ in range(1200)] + [['eval(3)', True]],
 ]
-EXPECTED_TITLES = ['Data', 'S 2', 'Empty', 'Sparse', 'Gap']
-EXPECTED_SIZES = [{'last_column': 3, 'last_row': 3}, {'last_column': 2, 'last_row': 4}, {'last_column': 0, 'last_row': 0},
-                  {'last_column': 2, 'last_row': 3}, {'last_column': 2, 'last_row': 1202}]
-EXPECTED_SUSPICIOUS = {"'S 2'B1": ['eval(1)'], "'S 2'A3": ['system("x")'], "'S 2'B3": ['eval(1)'], "'S 2'A4": ['exec(2)'],
+EXPECTED_TITLES = ['Data', 'S 2', 'Empty', 'Sparse', 'Ragged', 'Gap']
+EXPECTED_SIZES = [{'last_column': 3, 'last_row': 3}, {'last_column': 2, 'last_row': 5}, {'last_column': 0, 'last_row': 0},
+                  {'last_column': 2, 'last_row': 3}, {'last_column': 3, 'last_row': 4}, {'last_column': 2, 'last_row': 1202}]
+EXPECTED_SUSPICIOUS = {"'S 2'B1": ['eval(1)'], "'S 2'A3": ['system("x")'], "'S 2'B3": ['eval(1)'], "'S 2'A4": ['exec(2)'], "'S 2'B5": ['exec(9)'],
                        "'Gap'A1202": ['eval(3)']}
 
 
@@ -84,7 +87,7 @@ def evaluate_reader(src):
                 raise Unknown('iter_rows with arguments')
             use = rows if state['reset'] else [r[:1] for r in rows[:1]]       # a stale <dimension ref="A1"/> record
             return AV('list', items=tuple(AV('list', items=tuple(make_cell(v, i + 1, j + 1) for j, v in enumerate(
-                list(r) + [None] * ((width if state['reset'] else 1) - len(r))))) for i, r in enumerate(use)))
+                list(r) + ([] if state['reset'] else [None] * (1 - len(r)))))) for i, r in enumerate(use)))       # no record: rows end at their last cell
 
         def reset(a):
             state['reset'] = True
@@ -178,6 +181,20 @@ def evaluate_reader(src):
     return out
 
 
+def _strip(rows):
+    """rows without their trailing blanks (a reader may or may not pad a short row with blanks: the cells are the same)"""
+    if not isinstance(rows, list):
+        return rows
+    out = []
+    for r in rows:
+        if isinstance(r, list):
+            r = list(r)
+            while r and r[-1] is None:
+                r.pop()
+        out.append(r)
+    return out
+
+
 def reader_obligations(run, rule: str, src, parts=('data', 'titles', 'sizes', 'suspicious')):
     """obligations of `rule` from the evaluated reader; raises AnalysisError when the abstraction cannot follow Excel.parse"""
     from ..core import loc_of
@@ -192,7 +209,7 @@ def reader_obligations(run, rule: str, src, parts=('data', 'titles', 'sizes', 's
         return
     if 'data' in parts:
         for (title, _), want, have in zip(WORKBOOK, EXPECTED_DATA, got['data'] if isinstance(got['data'], list) else []):
-            run.check(have == want, rule, f'Excel.parse/data of sheet {title!r}', 'stored-values',
+            run.check(_strip(have) == _strip(want), rule, f'Excel.parse/data of sheet {title!r}', 'stored-values',
                       f'the reader delivers {have} for the sheet {title!r} whose cells hold {want}: every cell must be seen at its '
                       f'coordinate with its stored value (0, FALSE and empty text are values, trailing blanks keep their place, an array '
                       f'formula is its formula text, text keeps its blanks)', fact='stored values at their coordinates', loc=loc)
@@ -200,10 +217,10 @@ def reader_obligations(run, rule: str, src, parts=('data', 'titles', 'sizes', 's
                   f'the reader delivers {len(got["data"]) if isinstance(got["data"], list) else got["data"]} sheet(s) of data for a workbook '
                   f'with {len(WORKBOOK)} worksheets', fact=f'{len(WORKBOOK)} sheets', loc=loc)
     if 'data' in parts and isinstance(got.get('cells'), (list, str)):
-        want_cells = [(t, c, r, v) for t, rows in enumerate(EXPECTED_DATA) for r, row in enumerate(rows) for c, v in enumerate(row)]
+        want_cells = [(t, c, r, v) for t, rows in enumerate(EXPECTED_DATA) for r, row in enumerate(rows) for c, v in enumerate(row) if v is not None]
         if isinstance(got['cells'], str) and got['cells'].startswith('<not followed'):
             raise AnalysisError('C18', f'the abstraction cannot follow Excel.get_cells {got["cells"]}')
-        have_c = got['cells']
+        have_c = [x for x in got['cells'] if not (isinstance(x, tuple) and len(x) == 4 and x[3] is None)] if isinstance(got['cells'], list) else got['cells']
         missing = [x for x in want_cells if x not in have_c] if isinstance(have_c, list) else want_cells
         run.check(isinstance(have_c, list) and sorted(map(str, have_c)) == sorted(map(str, want_cells)), rule, 'Excel.get_cells/every stored cell',
                   'whole-file-enumeration',
